@@ -71,10 +71,12 @@ def run(chk):
     chk.rule("R1", "every kernel / product overload equals its index-notation definition on the embedded operands (polynomial identity => exact on integer inputs)")
     chk.rule("R2", "Inverse() is present exactly when Determinant() != 0 and then equals Adjugate()/Determinant(); Inverse * original == I algebraically")
     chk.rule("R4", "no kernel computes through a numeric type narrower than its own (e.g. an unqualified sqrt resolving to ::sqrt(double) in the long double instantiation)")
+    chk.rule("R5", "kernels whose components contain no sum of terms of unknown sign have an a-priori forward error bound (<= 8 u) on arbitrary inputs; the others (inherent cancellation) are not decided")
     chk.rule("R3", "compound assignments of the tensor classes equal the corresponding pure operator")
     chk.assumptions += ["polynomial identity over Q implies exact agreement on integer-valued inputs (degree <= 3, no rounding below 2^53/products)",
-                        "the few-ulp clause on non-integer inputs is NOT decided (cancellation in determinants is input-dependent)"]
+                        "the few-ulp clause on non-integer inputs is decided only for kernels without cancellation (R5); for dot/cross/determinant/products it is input-dependent and NOT decided"]
     n = 0
+    errstats = {"decided": 0, "undecided": 0, "max_u": 0.0}
     for T in NUMERIC:
         F = facts.load(T, chk.tier)
         tensors = ["PhQ::%s<%s>" % (c, T) for c in ("PlanarVector", "Vector", "SymmetricDyad", "Dyad")]
@@ -135,6 +137,8 @@ def run(chk):
                     rule = "R2" if kind == "inverse" else ("R3" if kind == "cassign" else "R1")
                     if bad is None:
                         chk.holds(rule, inst, "equals the index-notation definition", loc)
+                        if kind != "inverse":
+                            note_error_bound(chk, inst, E.load(this_lv) if kind == "cassign" else E.rv(res), T, loc, errstats)
                     else:
                         text, pair = bad
                         w = nf.witness(pair[0], pair[1]) if pair else None
@@ -192,6 +196,7 @@ def run(chk):
                 bad = compare(conv, E.rv(res), rs, want)
                 if bad is None:
                     chk.holds("R1", inst, "equals the index-notation definition", loc)
+                    note_error_bound(chk, inst, E.rv(res), T, loc, errstats)
                 else:
                     text, pair = bad
                     w = nf.witness(pair[0], pair[1]) if pair else None
@@ -202,6 +207,27 @@ def run(chk):
         chk.holds("R4", "all kernels", "%d kernel overloads evaluated: none casts a computed value to a narrower numeric type" % n, "")
     chk.floor("kernel overloads (x3 numeric types)", n, 300)
     chk.coverage["kernel_overloads"] = n
+    chk.coverage["forward_error_bound"] = errstats
+    chk.holds("R5", "a-priori error bounds", "%d kernels without subtraction of rounded terms: relative error <= %s u on arbitrary (non-integer) inputs; %d kernels with possible cancellation (dot, cross, determinant, ...) not decided" % (errstats["decided"], errstats["max_u"], errstats["undecided"]), "")
+
+
+def note_error_bound(chk, inst, val, T, loc, stats):
+    from .. import errdom
+    signs = {}
+    bs = []
+    for _, t in ev.flatten(val):
+        for leaf in ev.leaves(t):
+            signs[leaf] = "?"
+        bs.append(errdom.err(t, T, signs)[0])
+    if any(b is None for b in bs) or not bs:
+        stats["undecided"] += 1
+        return
+    w = float(max(bs))
+    if w > 8:
+        chk.violated("R5", inst, "a-priori forward error bound %s u (> 8 ulps) for all inputs" % w, loc)
+        return
+    stats["decided"] += 1
+    stats["max_u"] = max(stats["max_u"], w)
 
 
 def check_inverse(F, E, conv, res, A, sh):
